@@ -1,7 +1,7 @@
 (* C05 -- property theorems only.  Proofs live in C05/Proofs*.v. *)
 From Coq Require Import NArith List Bool.
 From DV Require Import Base.Outcome Base.Bytes Base.Names Base.PName
-  C05.Schema C05.Gen C05.Model C05.OptModel C05.SvcModel C05.ProofsA C05.ProofsB C05.ProofsC C05.ProofsD C05.ProofsE C05.ProofsF C05.ProofsG C05.ProofsH C05.Proofs.
+  C05.Schema C05.Gen C05.Model C05.OptModel C05.SvcModel C05.ProofsA C05.ProofsB C05.ProofsC C05.ProofsD C05.ProofsE C05.ProofsF C05.ProofsG C05.ProofsH C05.Proofs C05.ProofsI.
 Import ListNotations.
 Local Open Scope N_scope.
 
@@ -253,3 +253,29 @@ Theorem C05_ipseckey_src_agrees :
   Gen.ipseckey_src = map (fun g => (g, ipseckey_schema g)) [0; 1; 2; 3].
 Proof. exact ipseckey_src_agrees. Qed.
 Print Assumptions C05_ipseckey_src_agrees.
+
+(* canonical form, label by label: it is the wire form of the value whose
+   flagged names are lower-cased, and no upper-case ASCII octet is left in any
+   label of such a name (label lengths unchanged) *)
+Theorem C05_canonical_lowers_every_flagged_name : forall s v,
+  compose_canonical s v = compose s (lower_flagged s v) /\
+  (forall f x, In (f, x) (combine (s_fields s) (lower_flagged s v)) -> is_lower f = true ->
+     forall n, x = VName n ->
+     Forall (fun l => Forall (fun b => negb ((65 <=? b) && (b <=? 90)) = true) l) n).
+Proof. exact canonical_lowers_every_flagged_name. Qed.
+Print Assumptions C05_canonical_lowers_every_flagged_name.
+
+(* known constructor classes: ctor_reparse_IPSECKEY and svc_ctor_reparse_TLSGROUPS
+   (the ctor_long_* / ctor_reparse_ZONEMD witnesses are C05_ctor_rdlen_refuted /
+   C05_ctor_roundtrip_refuted, their exclusion theorem is C05_ctor_sound) *)
+Theorem C05_ctor_reparse_ipseckey_refuted :
+  ctor_accepts (ipseckey_schema 0) [VNum 10; VNum 0; VNum 2; VBytes []] = true /\
+  ipseckey_parse (compose (ipseckey_schema 0) [VNum 10; VNum 0; VNum 2; VBytes []]) 0 3 = Err E_SHORT.
+Proof. exact ctor_reparse_ipseckey_refuted. Qed.
+Print Assumptions C05_ctor_reparse_ipseckey_refuted.
+
+Theorem C05_tlsgroups_from_keys : 
+  rest_check KGroups (groups_from_keys []) = Some E_FORM /\
+  (forall ks, ks <> [] -> rest_check KGroups (groups_from_keys ks) = None).
+Proof. exact (conj tlsgroups_from_keys_refuted tlsgroups_from_keys_sound). Qed.
+Print Assumptions C05_tlsgroups_from_keys.
